@@ -131,6 +131,8 @@ def run(tier, seed, replay=None):
                       {"theorem_or_correspondence": "C11_stack_transactional (coq/props/C11.v)", "log": thm["log"][-3000:]},
                       no_failing_input=not spec_m)
 
+    if tier == "thorough" and (thm is None or thm["ok"]):
+        thorough_coqchk(res, "C11")
     res.coverage.update({
         "evaluations": stats.get("evaluations", 0),
         "distinct_nontrivial": stats.get("distinct_nontrivial", 0),
